@@ -192,7 +192,7 @@ def main():
             defaults["iters"] = text
             json.dump(defaults, open(DEFAULTS_PATH, "w"))
             print("wrote iters to " + DEFAULTS_PATH)
-    except (ParseError, OSError, ValueError, KeyError, IndexError) as ex:
+    except Exception as ex:  # anything unexpected in the source: fall back, never crash
         print("gen_iters: could not extract (recorded translation used; tie by correspondence only): table iterators (%s)" % ex, file=sys.stderr)
         text = defaults.get("iters")
         if text is None:
